@@ -249,6 +249,16 @@ def run(ctx):
                 meta.append((name, known))
         bad = validate(ctx, "TraceFunctional", traces, decide=None, next_="TNext", init="TInit",
                        constants={"Keys": {0}, "Outs": {0}, "Globs": {0}, "CheckGlobal": True})
+        accepted = [t for i, t in enumerate(traces) if i not in {b[0] for b in bad}]
+        if accepted:
+            from harness.tracecheck import selftest
+
+            def corrupt(t):
+                calls = [e for e in t["events"] if e["ev"] == "call"]
+                calls[1]["out"] = calls[1]["out"] + 1000
+                return "output token of the second of two identical runs changed"
+            selftest(ctx, "TraceFunctional", accepted[0], corrupt, decide=None, next_="TNext", init="TInit",
+                     constants={"Keys": {0}, "Outs": {0}, "Globs": {0}, "CheckGlobal": True})
         reported = set()
         for i, clause in bad:
             name, known = meta[i]
